@@ -259,6 +259,9 @@ func c16NewEnv(kind string, strat int, failover string, rng *rand.Rand) *c16Env 
 	t.AddCache(e.name, e.be.WDR())
 	e.export = t.Export()
 	e.inv = &cache.Invalidator{SkipInterval: time.Microsecond}
+	if rng.Intn(2) == 0 {
+		e.inv.SkipInterval = 0 // the zero value: the documented default is filled in lazily
+	}
 	e.inv.Callbacks = append(e.inv.Callbacks, e.be.ExpireAll, e.be.DeleteAll)
 	errFail := errors.New("build failed")
 	faulty := rng.Intn(2) == 0 // user-supplied backend that fails now and then with an unexpected error
